@@ -3,6 +3,7 @@
 //!   mtv replay <layer> <scripts.ndjson | ->     spec -> impl: run TLC-generated scripts
 //!   mtv drive  <layer> <n> <len> <out.ndjson>   impl -> spec: record random executions
 mod bank;
+mod chain;
 mod common;
 mod overlay;
 mod prefixed;
@@ -14,6 +15,7 @@ fn main() {
     match (a(1), a(2)) {
         ("replay", "overlay") => overlay::replay(a(3)),
         ("replay", "prefixed") => prefixed::replay(a(3)),
+        ("replay", "chain") => chain::replay(a(3)),
         ("replay", "bank") => bank::replay(a(3)),
         ("drive", "bank") => bank::drive(a(3).parse().unwrap_or(10), a(4).parse().unwrap_or(50), a(5)),
         ("drive", "overlay") => overlay::drive(
